@@ -6,6 +6,7 @@
   been raised.  All theorems are for *every* world (any fault, any solver answers), every problem,
   every option set, from every state.
 -/
+import Optyx.Props.Dispatch
 import Optyx.Lemmas.Solve
 import Optyx.Drive.Solve   -- one build of this module also builds the driver the check runs
 
